@@ -445,7 +445,12 @@ class World(BaseWorld):
             return "skipped"
         same = type_key(self.family, a.dom) == type_key(self.family, b.dom) \
             and type_key(self.family, a.cod) == type_key(self.family, b.cod)
-        v, out = self.request(same, "a + b", lambda: a + b)
+        if op.get("zero"):
+            # the sum of no terms at all (what grad() of a constant gives): a value with types only
+            v, out = self.request(True, "Sum([], a.dom, a.cod)", lambda: a.sum([], a.dom, a.cod))
+            self.note("zero_sums")
+        else:
+            v, out = self.request(same, "a + b", lambda: a + b)
         if v is None:
             return out
         self.note("values_scanned", scan_value(v, "sum"))
@@ -1047,7 +1052,7 @@ class Driver:
             b = sched.choice([n_ for n_ in names if fingerprint(world.pool[n_]["real"])[:2]
                               == fingerprint(world.pool[a]["real"])[:2]])
             return {"op": "sum", "a": a, "b": b, "c": sched.choice(names),
-                    "how": sched.choice(["then", "tensor", "dagger"])}
+                    "how": sched.choice(["then", "tensor", "dagger"]), "zero": sched.random() < 0.3}
         if r < 0.45:
             f = sched.choice(["dagger", "dagger_method", "iter", "layers_slices", "bubble", "downgrade", "flatten",
                               "depth_width", "foliation", "foliation_flatten", "foliate_all", "normalize_all",
